@@ -150,3 +150,12 @@ func init() {
 		NotCovered: "geometric correctness of Cap/Rect/Polyline cell predicates beyond the named structural clause; MaxCells behaviour; the numeric clipping itself.",
 	}
 }
+
+func init() {
+	Properties["C01"] = PropertySpec{
+		Rules: []string{"R-TABLE", "R-MIRROR", "R-GLOBAL", "R-CONST", "R-RANGE"},
+		Explanation: "Narrow claim. The data and case tables that both directions of the id <-> (face,i,j) <-> xyz conversions are generated from are mutually consistent (Hilbert orders, orientation bits, six face frames and their projections, bit-interleave tables); " +
+			"the lookup tables are written only during initialisation; the mirrored clamps of the neighbour wrap and the re-checks of AdvanceWrap stay mirrored; the containment margin and uv error are not weakened; leaf ranges are compared inclusively.",
+		NotCovered: "every clause about concrete ids and points (containment of a point by its leaf, neighbour adjacency, token round trips, range partition): identities of 64-bit and float arithmetic over all inputs.",
+	}
+}
